@@ -141,8 +141,9 @@ Fixpoint check_steps (s : st) (synced : bool) (stack : list obs) (prev : obs) (s
 
 Definition check_case (c : obs * list (op * obs)) : list (nat * nat) :=
   let '(ob0, steps) := c in
-  (if agree init ob0 && lp_sync_b ob0 && wf_b ob0 then [] else [(0%nat, 1%nat)]) ++
-  check_steps init true [] ob0 steps 1.
+  let s0 := init_u (map ro_id (o_rx ob0)) (map mo_id (o_mt ob0)) in
+  (if agree s0 ob0 && lp_sync_b ob0 && wf_b ob0 then [] else [(0%nat, 1%nat)]) ++
+  check_steps s0 true [] ob0 steps 1.
 
 Definition failing (cases : list (Z * (obs * list (op * obs)))) : list (Z * list (nat * nat)) :=
   filter (fun r => match snd r with [] => false | _ => true end)
